@@ -8,6 +8,7 @@ Second layer (docs/C13.md): the per-variable object sc_statinfo_t as a state mac
 from src/sc_statistics.c (group StatsVarC13) and proved equal; theorems over histories of any number of rounds; the extracted state
 machine is run on every history of the correspondence run and compared with all fields after every round on every rank."""
 import os, sys, json, struct, math
+from fractions import Fraction
 import vlib, mpitrace
 sys.path.insert(0, os.path.join(vlib.TOOLS, "c2g"))
 
@@ -20,11 +21,35 @@ def bitsd(u):
     return struct.unpack("<d", struct.pack("<Q", u))[0]
 
 
-def gen_samples(rng, style):
+# constants whose square or mean is inexact in binary64: with (nearly) zero variance the residual sum_squares / count - average^2
+# rounds to a small negative number for some sample counts (0.1: 3 samples; 0.3, 0.6, 0.7, 2.9, 3.3: 6 samples)
+CONSTS = [0.1, 0.3, 0.6, 0.7, 2.9, 3.3, 1e-3, 1.0 / 3.0, 1e16 + 1.0, 0.2, 1.1, 123.456, -0.1, -3.3, 1e-7, 7.3e11]
+
+
+def seqsum(xs):
+    """left-to-right binary64 sum, as a sequence of sc_stats_accumulate calls computes it (Python's sum () compensates since 3.12)"""
+    a = 0.0
+    for x in xs:
+        a = a + x
+    return a
+
+
+def gen_samples(rng, style, force=False):
     k = rng.random()
-    if style == "empty" or k < 0.25:
+    if style == "empty" or (k < 0.25 and not force):
         return []
+    if isinstance(style, tuple):
+        kind, c, n = style
+        if kind == "const":
+            return [c] * n
+        return [rng.choice([c, math.nextafter(c, math.inf), c]) for _ in range(n)]      # nearconst: c and c * (1 + 2^-52)
     n = rng.choice([1, 1, 2, 3, 5, 8])
+    if style == "huge":
+        return [rng.choice([1.0, -1.5, 2.75, rng.uniform(-9, 9)]) * 1e150 for _ in range(n)]
+    if style == "tiny":
+        return [rng.choice([1.0, -1.5, 2.75, rng.uniform(-9, 9)]) * 1e-160 for _ in range(n)]
+    if style == "frac":
+        return [rng.uniform(-10, 10) for _ in range(n)]
     if style == "pos":
         return [float(rng.randrange(1, 50)) for _ in range(n)]
     if style == "neg":
@@ -49,7 +74,9 @@ def gen_cases(ctx):
         for rep in range(16 if ctx.quick else 40):
             nvars = rng.choice([1, 2, 3, 4])
             rounds = rng.choice([1, 2, 2, 3, 4])
-            styles = [rng.choice(["any", "pos", "neg", "ties", "empty", "any"]) for _ in range(nvars)]
+            styles = [rng.choice(["any", "pos", "neg", "ties", "empty", "any", "any", "frac", "huge", "tiny",
+                                  ("const", rng.choice(CONSTS), rng.choice([1, 1, 2, 3])), ("nearconst", rng.choice(CONSTS), rng.choice([1, 2, 3]))])
+                      for _ in range(nvars)]
             isdirty = [[False] * nvars for _ in range(P)]
             data, kinds = [], []
             for rd in range(rounds):
@@ -77,7 +104,7 @@ def gen_cases(ctx):
                                "all_but_one": q != P // 2, "all": True, "reset_nothing": q % 2 == 1}[pat]
                         xs = gen_samples(rng, styles[i]) if has else []
                         if has and not xs and pat not in ("rand", "none"):
-                            xs = [float(rng.randrange(-9, 9))]
+                            xs = gen_samples(rng, styles[i], force=True) if styles[i] != "empty" else [float(rng.randrange(-9, 9))]
                         k = rng.random()
                         if pat == "reset_nothing" and not has:
                             row.append((rng.choice([3, 5]), []))
@@ -101,15 +128,38 @@ def gen_cases(ctx):
                 data.append(rdata)
                 kinds.append(kind)
             cases.append((P, rng.randrange(1 << 30), rng.randrange(8), nvars, rounds, data, kinds))
+    # sweep aimed at the clamp SC_MAX (variance, 0.): every constant of CONSTS as its own variable, k samples on each of P ranks
+    # (round 0), then a refill through reset with c / c * (1 + 2^-52) on a random subset of the ranks (round 1)
+    for P in ([1, 2, 3, 4, 5, 6, 7] if ctx.quick else list(range(1, 13))):
+        for k in (1, 2, 3):
+            for half in (CONSTS[:8], CONSTS[8:]):
+                r0 = [[(0, [c] * k) for c in half] for _ in range(P)]
+                r1 = [[(3, [rng.choice([c, math.nextafter(c, math.inf)]) for _ in range(rng.choice([0, 1, 1, 2]))]) for c in half] for _ in range(P)]
+                cases.append((P, rng.randrange(1 << 30), rng.randrange(8), len(half), 2, [r0, r1], [0, 0]))
     # F-C13a, the witness of theorem C13_compute1_clean_old_refuted as an ordinary judged case:
     # P = 1: init; accumulate 2; accumulate 4; compute; then compute1 without touching the variable
     cases.insert(0, (1, 1, 0, 1, 2, [[[(0, [2.0, 4.0])]], [[(2, [])]]], [0, 1]))
     return cases
 
 
-def sample_hex(x):
-    v = int(x)
+def sample_hex(x, den=1):
+    v = int(Fraction(x) * den)
     return ("-%x" % -v) if v < 0 else ("%x" % v)
+
+
+def is_small_int(x):
+    return x == int(x) and abs(x) < 2 ** 20
+
+
+def var_scale(case, i):
+    """(exact, den): exact = every sample of variable i is a small integer (all sums exact in binary64, the state machine is compared on
+    every field); otherwise den = the power of two that makes every sample an integer: the state machine then runs on the scaled
+    samples and dirty / count / min / max / ranks are compared (sums of the library are rounded, those of the model exact)."""
+    P, seed, adv, nvars, rounds, data, kinds = case
+    xs = [x for rd in range(rounds) for q in range(P) for x in data[rd][q][i][1]]
+    if all(is_small_int(x) for x in xs):
+        return True, 1
+    return False, max([Fraction(x).denominator for x in xs] + [1])
 
 
 def history_lines(case):
@@ -118,16 +168,17 @@ def history_lines(case):
     H, N = [], []
     for i in range(nvars):
         cells = []
+        den = var_scale(case, i)[1]
         for rd in range(rounds):
             for q in range(P):
                 mode, xs = data[rd][q][i]
-                acc = ["A" + sample_hex(x) for x in xs]
+                acc = ["A" + sample_hex(x, den) for x in xs]
                 if mode in (0, 4) or (mode in (3, 5) and rd == 0):
                     t = ["I"] + acc
                 elif mode in (3, 5):
                     t = ["R"] + acc
                 elif mode in (1, 6):
-                    t = ["S" + sample_hex(xs[0])]
+                    t = ["S" + sample_hex(xs[0], den)]
                 elif mode == 7:
                     t = acc
                 else:
@@ -160,21 +211,62 @@ def history_lines(case):
 
 
 def oracle_var(P, contributions):
-    """contributions: list over ranks of sample lists -> expected outputs"""
+    """contributions: list over ranks of sample lists -> the numbers of the union that do not depend on the order of summation
+    (count, extremes, their lowest ranks) and reference sums with the tolerance that another order of summation may use up
+    (zero when every sample is a small integer: then every partial sum is exact)"""
     allx = [x for xs in contributions for x in xs]
     cnt = len(allx)
     if cnt == 0:
         return None
-    s = sum(allx)          # integer valued: exact
-    q = sum(x * x for x in allx)
+    exact = all(is_small_int(x) for x in allx)
+    s = math.fsum(allx)
+    sqs = [x * x for x in allx]
+    q = math.fsum(sqs)
     mn, mx = min(allx), max(allx)
     mnr = min(r for r, xs in enumerate(contributions) if xs and min(xs) == mn)
     mxr = min(r for r, xs in enumerate(contributions) if xs and max(xs) == mx)
-    avg = s / cnt
-    var = max(q / cnt - avg * avg, 0.0)
-    vm = var / cnt
-    return dict(count=cnt, sum=s, sumsq=q, min=mn, max=mx, min_at=mnr, max_at=mxr, average=avg, variance=var,
-                standev=math.sqrt(var), variance_mean=vm, standev_mean=math.sqrt(vm))
+    u = 2.0 ** -53
+    return dict(count=cnt, sum=s, sumsq=q, min=mn, max=mx, min_at=mnr, max_at=mxr, exact=exact,
+                tol_sum=0.0 if exact else 2 * (cnt + 1) * u * math.fsum(abs(x) for x in allx),
+                tol_sumsq=0.0 if exact else 2 * (cnt + 2) * u * q)
+
+
+def derived_from(count, s, q):
+    """The derived outputs as the header of sc_stats_compute and the property text define them, from the count and sums a rank REPORTS,
+    in IEEE binary64 (Python floats): average = sum / count, variance = max (sum_squares / count - average^2, 0),
+    variance_mean = variance / count, standard deviations = square roots.  This restates the formulae, not the statement order of the code."""
+    avg = s / count
+    v = q / count - avg * avg
+    var = v if v > 0.0 else 0.0
+    vm = var / count
+    return dict(average=avg, variance=var, standev=math.sqrt(var), variance_mean=vm, standev_mean=math.sqrt(vm))
+
+
+def judge_rank(got, exp):
+    """got: what a rank holds after the computation, exp: oracle_var of the union.  Returns None or the first complaint."""
+    for k in ("count", "min", "max", "min_at", "max_at"):
+        if got[k] != exp[k]:
+            return "%s is %r, statistics of the union give %r" % (k, got[k], exp[k])
+    for k in ("sum", "sumsq"):
+        if not (abs(got[k] - exp[k]) <= exp["tol_" + k]):
+            return "%s is %r, statistics of the union give %r (tolerance of another summation order %r)" % (k, got[k], exp[k], exp["tol_" + k])
+    # invariants of the derived outputs, judged on their own
+    if not (got["variance"] >= 0.0):
+        return "variance is %r: negative or not a number" % got["variance"]
+    if not (got["variance_mean"] >= 0.0):
+        return "variance_mean is %r: negative or not a number" % got["variance_mean"]
+    for k in ("standev", "standev_mean"):
+        if not (math.isfinite(got[k]) and got[k] >= 0.0):
+            return "%s is %r: not a finite non-negative number" % (k, got[k])
+    slack = 4 * (exp["count"] + 2) * 2.0 ** -53 * max(abs(exp["min"]), abs(exp["max"]))
+    if not (exp["min"] - slack <= got["average"] <= exp["max"] + slack):
+        return "average is %r outside [min, max] = [%r, %r]" % (got["average"], exp["min"], exp["max"])
+    # ... and bit for bit against the formulae applied to the count and sums this rank reports
+    d = derived_from(got["count"], got["sum"], got["sumsq"])
+    for k in ("average", "variance", "standev", "variance_mean", "standev_mean"):
+        if dbits(got[k]) != dbits(d[k]):
+            return "%s is %r, the formula applied to the reported count / sum_values / sum_squares gives %r" % (k, got[k], d[k])
+    return None
 
 
 def run(ctx):
@@ -251,7 +343,7 @@ def run(ctx):
                 contrib[i] = [list(data[rd][q][i][1]) if dirty[q] else [] for q in range(P)]
                 if kinds[rd]:
                     # sc_stats_compute1: every rank contributes the single sample sum_values
-                    contrib[i] = [[float(sum(xs))] if dirty[q] else [] for q, xs in enumerate(contrib[i])]
+                    contrib[i] = [[seqsum(xs)] if dirty[q] else [] for q, xs in enumerate(contrib[i])]
                 if any(dirty) and not all(dirty):
                     dist["vars_clean_on_some_ranks"] += 1
                 if kinds[rd]:
@@ -291,12 +383,9 @@ def run(ctx):
                                 or got["variance_mean"] != 0 or got["standev_mean"] != 0:
                             bad = "variable without any sample: count/outputs not zero"
                     else:
+                        bad = judge_rank(got, exp)
                         if got["dirty"] != 0:
                             bad = "dirty flag still set after a computation with samples"
-                        for k in ("count", "sum", "sumsq", "min", "max", "min_at", "max_at", "average", "variance", "standev", "variance_mean", "standev_mean"):
-                            if got[k] != exp[k]:
-                                bad = "%s is %r, statistics of the union give %r" % (k, got[k], exp[k])
-                                break
                     got["raw"] = w
                     prev[(q, i)] = got
                     if bad:
@@ -310,7 +399,12 @@ def run(ctx):
         H, N = history_lines(c)
         for i in range(nvars):
             hlines.append(H[i])
-            hindex.append(("H", ci, i, None, [[outs.get((rd, q, i)) for q in range(P)] for rd in range(rounds)]))
+            ex_, den_ = var_scale(c, i)
+            # inexact sums: sc_stats_compute1 turns the ROUNDED sum into a sample, the model the exact one - compare up to the first such round
+            upto = rounds if ex_ else min([rd for rd in range(rounds) if kinds[rd]] + [rounds])
+            dk = "state_machine_vars_exact" if ex_ else "state_machine_vars_scaled"
+            dist[dk] = dist.get(dk, 0) + 1
+            hindex.append(("H", ci, i, (ex_, den_, upto), [[outs.get((rd, q, i)) for q in range(P)] for rd in range(rounds)]))
             for q in range(P):
                 hlines.append(N[i * P + q])
                 hindex.append(("N", ci, i, q, [outs.get((rd, q, i)) for rd in range(rounds)]))
@@ -372,7 +466,8 @@ def run(ctx):
             P = cases[ci][0]
             bad = None
             if kind == "H":
-                for rd, row in enumerate(impl):
+                ex_, den_, upto = q
+                for rd, row in enumerate(impl[:upto]):
                     for qq, w in enumerate(row):
                         m = [hx(t) for t in cells[rd * P + qq]]
                         if w is None:
@@ -380,7 +475,14 @@ def run(ctx):
                         fl = [bitsd(int(w[k], 16)) for k in (2, 3, 4, 5)]
                         got = [int(w[0]), int(w[1])] + fl + [int(w[6]), int(w[7])]
                         hcmp += 1
-                        if got != m[:8]:
+                        if not ex_:
+                            # scaled samples: dirty, count, min, max (exact as rationals), ranks
+                            g2 = [got[0], got[1], Fraction(got[4]) * den_, Fraction(got[5]) * den_, got[6], got[7]]
+                            m2 = [m[0], m[1], m[4], m[5], m[6], m[7]]
+                            if g2 != m2:
+                                bad = "round %d rank %d: implementation dirty/count/min/max/min_at/max_at %s, model (samples scaled by 2^%d) %s" % (
+                                    rd, qq, [got[k] for k in (0, 1, 4, 5, 6, 7)], den_.bit_length() - 1, m2)
+                        elif got != m[:8]:
                             bad = "round %d rank %d: implementation dirty/count/sum/sumsq/min/max/min_at/max_at %s, model %s" % (rd, qq, got, m[:8])
                         elif bitsd(int(w[8], 16)) != m[8] / m[9]:
                             bad = "round %d rank %d: average %r, model %d/%d" % (rd, qq, bitsd(int(w[8], 16)), m[8], m[9])
@@ -412,7 +514,10 @@ def run(ctx):
                        "set1 / set1_ext(copy), reset(0) / reset(1) + accumulate (also reset and then nothing while other ranks have samples), accumulate only on a variable that stayed "
                        "dirty, nothing; 25% of the rounds end with sc_stats_compute1 (with variables clean on all ranks / on some ranks: they must stay untouched, repair F-C13a; "
                        "the witness of C13_compute1_clean_old_refuted is case 0); integer-valued samples of both signs, all-positive, all-negative, "
-                       "ties in the extremes, empty on random subsets / all ranks / all but the lowest / all but the highest; non-trivial = P > 1; "
+                       "ties in the extremes, and non-integer samples: constants whose square / mean is inexact (0.1, 0.3, 0.6, 0.7, 2.9, 3.3, 1e-3, 1/3, 1e16+1, ...) repeated 1-3 times per rank, "
+                       "near-constant (c and its successor), arbitrary fractions, magnitudes 1e150 and 1e-160, plus a sweep of every constant with k = 1..3 samples on each of P = 1..7 ranks "
+                       "(then a refill on a random subset); the derived outputs are judged by their invariants and bit for bit against the documented formulae applied to the count and sums "
+                       "the rank reports; empty on random subsets / all ranks / all but the lowest / all but the highest; non-trivial = P > 1; "
                        "every history is also run through the extracted state machine (all fields after every round on every rank)")
     ctx.notes["distribution"] = dist
     for c in cases[:: max(1, len(cases) // 3)][:3]:
@@ -422,6 +527,8 @@ def run(ctx):
                                "rounding of binary64, sqrt and the bit patterns of the twelve outputs: Python oracle recomputing them in the order of the C code",
                                "tools/simmpi (MPI_Allreduce with a commutative user operation: arbitrary tree over arbitrary permutation)"]
     ctx.assumptions += ["sc_stats_accumulate only on dirty variables (SC_ASSERT)",
+                        "Python floats are IEEE binary64 with round-to-nearest and a correctly rounded sqrt, as the C doubles of the build (no FMA contraction, no x87 excess precision on x86-64)",
+                        "samples stay within 1e-160 .. 1e150 in magnitude so that no square overflows (overflow is outside the property)",
                         "sums: exact arithmetic; with general doubles the sums agree up to the rounding of another summation order (not judged bitwise)",
                         "MPI applies a commutative user operation in any order and association"]
     return "proof"
